@@ -36,6 +36,33 @@ type KnownFile struct {
 	Findings []KnownFinding `json:"findings"`
 }
 
+// Unclaimed obligations: generated from the contract but not discharged on the unchanged tree within the time limits
+// (neither proved nor refuted). They are not part of any claim; the evidence lists them.
+type Unclaimed struct {
+	Function   string `json:"function"`
+	Obligation string `json:"obligation"`
+	Reason     string `json:"reason"`
+}
+
+func loadUnclaimed() []Unclaimed {
+	var u []Unclaimed
+	b, err := os.ReadFile(filepath.Join(verifRoot(), "unclaimed.json"))
+	if err != nil {
+		return nil
+	}
+	_ = json.Unmarshal(b, &u)
+	return u
+}
+
+func isUnclaimed(us []Unclaimed, fn, obl string) *Unclaimed {
+	for i := range us {
+		if us[i].Function == fn && (us[i].Obligation == obl || (strings.HasSuffix(us[i].Obligation, "*") && strings.HasPrefix(obl, strings.TrimSuffix(us[i].Obligation, "*")))) {
+			return &us[i]
+		}
+	}
+	return nil
+}
+
 func loadKnown() KnownFile {
 	var kf KnownFile
 	b, err := os.ReadFile(filepath.Join(verifRoot(), "known_findings.json"))
@@ -140,6 +167,8 @@ func runCheck(repo, prop, tier string, seed int, opt solveOpts, start time.Time)
 	}
 	loadS := time.Since(start).Seconds()
 	kf := loadKnown()
+	unclaimed := loadUnclaimed()
+	var unclaimedSeen []string
 	type job struct {
 		fn *ssa.Function
 		ct *Contract
@@ -218,6 +247,10 @@ func runCheck(repo, prop, tier string, seed int, opt solveOpts, start time.Time)
 		for _, o := range r.Obls {
 			if o.Kind == "inv-auto" {
 				continue // candidate invariants are a proof aid, not a claim
+			}
+			if u := isUnclaimed(unclaimed, r.Name, o.Name); u != nil {
+				unclaimedSeen = append(unclaimedSeen, fmt.Sprintf("%s/%s (%s): %s", r.Name, o.Name, o.Result, u.Reason))
+				continue
 			}
 			total++
 			fe.Obligations++
@@ -339,6 +372,7 @@ func runCheck(repo, prop, tier string, seed int, opt solveOpts, start time.Time)
 		"known_findings":           known,
 		"not_decided":              propertyNotDecided(prop),
 		"engine_errors":            engineErrs,
+		"unclaimed_obligations":    unclaimedSeen,
 		"lemmas":                   lemmaEv,
 		"load_s":                   round2(loadS),
 	}
